@@ -1,100 +1,362 @@
+// Check C13: write forwarding under a halt lock is exclusive, ordered and acknowledged.
+//
+// spec: spec/Halt.tla is model-checked exhaustively in two variants -- the repaired one (every clause
+// of the property is an invariant) and the code as written (the clauses that hold as written; the
+// clauses that do not are separate configurations in which TLC must find the recorded violation).
+// spec -> impl: TLC emits replay scripts (behaviours of the as-written variant with an eager stream,
+// one per distinct end state); every script is executed on a REAL three-node cluster (sim.Cluster:
+// real stores, real h2c HTTP, real FUSE handlers without a mount). The holder takes the lock through
+// LockHandle.LockWait on "<db>-lock" byte 72 and writes through the pager simulator on the replica.
+// Verdicts come only from the monitors in engine.go, evaluated on values observed from the running
+// code (positions seen by the Invalidator, OS labels, HTTP statuses, returned errors); agreement
+// with the model's predictions beyond that is conformance evidence (R3).
 package main
 
 import (
-	"context"
+	"encoding/json"
 	"fmt"
+	"math/rand"
 	"os"
+	"sort"
+	"strings"
+	"sync"
 	"time"
 
 	"github.com/superfly/litefs/verifharness/core"
 	"github.com/superfly/litefs/verifharness/sim"
 )
 
-func main() {
-	defer core.Cleanup()
-	sc := os.Args[1]
-	w, err := newWorld(worldOpts{WAL: len(os.Args) > 2, Layout: sim.L0(512)})
-	if err != nil {
-		fmt.Println("ERR", err)
-		return
-	}
-	defer w.close()
-	fmt.Println("pos", w.pos("P"), w.pos("R"), w.pos("T"))
-	switch sc {
-	case "lostack":
-		hh, _ := w.openLockFile("R")
-		fmt.Println("lockWait", hh.lockWait(context.Background()))
-		w.taps["R"].lose("POST /tx", 1)
-		r := w.localTx("R", false)
-		fmt.Println("R tx (ack lost):", r.Err, r.Before, r.After, "P:", w.pos("P"))
-		r = w.localTx("R", false)
-		fmt.Println("R tx2:", r.Err, r.Before, r.After, "P:", w.pos("P"))
-		fmt.Println("unlock", hh.unlock(context.Background()))
-		fmt.Println("settle R", w.settle([]string{"R", "T"}, 3*time.Second))
-		r = w.localTx("P", false)
-		fmt.Println("P tx:", r.Err, r.After)
-		fmt.Println("settle R", w.settle([]string{"R"}, 3*time.Second), "T", w.settle([]string{"T"}, 3*time.Second))
-		fmt.Println("pos", w.pos("P"), w.pos("R"), w.pos("T"))
-	case "lag":
-		w.n["R"].Client.Block()
-		r := w.localTx("P", false)
-		fmt.Println("P tx:", r.Err, r.After, "R at", w.pos("R"))
-		hh, _ := w.openLockFile("R")
-		done := make(chan error, 1)
-		go func() { done <- hh.lockWait(context.Background()) }()
-		time.Sleep(100 * time.Millisecond)
-		fmt.Println("R remote lock while waiting", w.n["R"].Store.DB("db").RemoteHaltLock())
-		w.n["R"].Client.Unblock()
-		select {
-		case e := <-done:
-			fmt.Println("lockWait", e)
-		case <-time.After(5 * time.Second):
-			fmt.Println("lockWait still blocked")
+const prop = "C13"
+
+type tlcStage struct {
+	name, cfg string
+	expect    string // "" = must pass; otherwise the invariant TLC must report as violated
+	timeout   time.Duration
+	quick     bool
+	kind      string // exhaustive | finding | relevance | lead
+}
+
+var stages = []tlcStage{
+	{"MC_Halt_fixed_q", "MC_Halt_fixed_q.cfg", "", 8 * time.Minute, true, "exhaustive"},
+	{"MC_Halt_ascoded_q", "MC_Halt_ascoded_q.cfg", "", 8 * time.Minute, true, "exhaustive"},
+	{"Find_Halt_holder", "Find_Halt_holder.cfg", "OnlyFromHolder", 3 * time.Minute, true, "finding"},
+	{"Find_Halt_former", "Find_Halt_former.cfg", "FormerCannotPublish", 3 * time.Minute, true, "finding"},
+	{"Find_Halt_wedge", "Find_Halt_wedge.cfg", "NoWedge", 3 * time.Minute, true, "finding"},
+	{"MC_Halt_fixed_t1", "MC_Halt_fixed_t1.cfg", "", 15 * time.Minute, false, "exhaustive"},
+	{"MC_Halt_fixed_t2", "MC_Halt_fixed_t2.cfg", "", 15 * time.Minute, false, "exhaustive"},
+	{"MC_Halt_ascoded_t", "MC_Halt_ascoded_t.cfg", "", 15 * time.Minute, false, "exhaustive"},
+	{"Mut_Halt_grantpins", "Mut_Halt_grantpins.cfg", "Exclusive", 3 * time.Minute, false, "relevance"},
+	{"Mut_Halt_fwdfirst", "Mut_Halt_fwdfirst.cfg", "AckedIsOnPrimary", 3 * time.Minute, false, "relevance"},
+	{"Mut_Halt_waitpos", "Mut_Halt_waitpos.cfg", "StartsAtLockPos", 3 * time.Minute, false, "relevance"},
+	{"Mut_Halt_idem", "Mut_Halt_idem.cfg", "SameIdSameLock", 3 * time.Minute, false, "relevance"},
+	{"Mut_Halt_expiry", "Mut_Halt_expiry.cfg", "WritableAgain", 3 * time.Minute, false, "relevance"},
+	{"Lead_Halt_stuck", "Lead_Halt_stuck.cfg", "NoStuck", 3 * time.Minute, false, "lead"},
+}
+
+var scriptCfgs = []string{"Script_Halt_a.cfg", "Script_Halt_b.cfg", "Script_Halt_c.cfg"}
+
+func keepAlive(label string) func() {
+	stop := make(chan struct{})
+	go func() {
+		for {
+			core.Beat(label)
+			select {
+			case <-stop:
+				return
+			case <-time.After(3 * time.Second):
+			}
 		}
-		fmt.Println("R remote lock", w.n["R"].Store.DB("db").RemoteHaltLock(), "R pos", w.pos("R"), "P locks", w.lockTable("P")["pending"], w.lockTable("P")["write"])
-		r = w.localTx("R", false)
-		fmt.Println("R tx:", r.Err, r.Stage, r.Before, r.After, "P:", w.pos("P"))
-		ctx, c := context.WithTimeout(context.Background(), 3*time.Second)
-		fmt.Println("unlock", hh.unlock(ctx))
-		c()
-		fmt.Println("P locks", w.lockTable("P")["pending"], w.lockTable("P")["write"])
-	case "pchange":
-		hh, _ := w.openLockFile("R")
-		fmt.Println("lockWait", hh.lockWait(context.Background()))
-		r := w.localTx("R", false)
-		fmt.Println("R tx:", r.Err, r.After, "P:", w.pos("P"))
-		fmt.Println("settle T", w.settle([]string{"T"}, 3*time.Second))
-		t0 := time.Now()
-		fmt.Println("elect T", w.cl.Elect("T", 10*time.Second), time.Since(t0))
-		for i := 0; i < 2000; i++ {
-			if _, info := w.n["R"].Store.PrimaryInfo(); info != nil && info.AdvertiseURL == w.n["T"].URL {
+	}()
+	return func() { close(stop); core.Beat("harness") }
+}
+
+func main() {
+	args := core.ParseArgs()
+	rep := core.NewReport(prop, "model_checking", args)
+	rep.Rule = "replay scripts = behaviours of Halt.tla (code-as-written variant, eager stream), one per distinct end state of the bounded script configurations, sampled by seed with one script per distinct set of (action, outcome) pairs first; each is executed on a real 3-node cluster in rollback-journal or WAL mode; distinct = script x journal mode x layout; non-trivial = the script contains a granted halt lock and at least one of: forwarded commit, message fault, expiry, rogue /tx, primary change, blocked stream, refused local writer"
+	rep.Assumptions = []string{
+		"checksums of different histories differ (CRC64 collision-freeness)",
+		"the twelve SQLite locks are abstracted to one write lock per node in Halt.tla (C11/C12 decide the lock protocol itself)",
+		"expiry is driven by Store.EnforceHaltLockExpiration with an already overdue lock (HaltLockTTL = 1 ms, monitor interval 24 h), i.e. the monitor tick is the event, wall-clock TTL arithmetic is not exercised",
+		"'reaches every other replica' is checked for the third replica while the granting node stays primary (after a primary change LiteFS makes no such promise for any transaction)",
+		"a failed forwarded commit in WAL mode ends the script for the holder (LiteFS calls Store.Exit(99); a process restart is outside Halt.tla)",
+		"sequence numbers come from one atomic counter: an event observed before another one started is ordered before it",
+	}
+	defer core.Cleanup()
+
+	core.Watchdog(150*time.Second, func(label string, since time.Duration) {
+		if strings.HasPrefix(label, "real:") {
+			rep.Violate("C13.no-hang", "hang/"+label, map[string]any{"no_progress_for": since.String(), "doing": label}, nil)
+			rep.Finish()
+		}
+		core.Infra("no progress for %s while %s", since, label)
+	})
+
+	if args.Replay != "" {
+		replayFile(rep, args)
+		rep.Finish()
+	}
+
+	// ---- 1. model checking ----
+	for _, st := range stages {
+		if args.Quick() && !st.quick {
+			continue
+		}
+		done := keepAlive("tlc:" + st.name)
+		res, err := core.RunTLC(core.TLCOpts{Module: "Halt", Cfg: st.cfg, Workers: 4, Timeout: st.timeout})
+		done()
+		if err != nil {
+			core.Infra("tlc %s: %v", st.name, err)
+		}
+		rep.AddTLC(st.name, res)
+		switch {
+		case st.expect == "" && !res.OK():
+			core.Infra("model checking %s failed (a model problem, not a verdict about the code): %s\n%s\n%s", st.name, res.Describe(), res.ErrorText, res.OutputTail)
+		case st.expect != "" && res.Violation != st.expect:
+			core.Infra("%s: expected TLC to report a violation of %s, got %s\n%s", st.name, st.expect, res.Describe(), res.OutputTail)
+		}
+		if st.expect != "" {
+			l, _ := rep.Extra["expected_model_violations"].([]any)
+			rep.Extra["expected_model_violations"] = append(l, map[string]any{"cfg": st.cfg, "kind": st.kind, "invariant": st.expect, "states_to_counterexample": res.Distinct})
+		}
+	}
+
+	// ---- 2. scripts from TLC ----
+	var all []script
+	if os.Getenv("C13_MODEL") != "ascoded" {
+		// /repo carries the two repairs (holder check in /tx, lock-free unset in the stream), so the
+		// predictions come from the repaired variant of Halt.tla; C13_MODEL=ascoded selects the original
+		scriptCfgs = []string{"Script_Halt_fixed_a.cfg", "Script_Halt_fixed_b.cfg", "Script_Halt_fixed_c.cfg"}
+		rep.Note("scripts and predictions come from the repaired variant of Halt.tla (TxHolderCheck, UnsetFix)")
+	}
+	for _, cfg := range scriptCfgs {
+		var mu sync.Mutex
+		n0 := len(all)
+		done := keepAlive("tlc:" + cfg)
+		res, err := core.RunTLC(core.TLCOpts{Module: "Halt", Cfg: cfg, Workers: 4, Timeout: 8 * time.Minute,
+			OnLine: func(tag string, payload json.RawMessage) {
+				if tag != "TRACE" {
+					return
+				}
+				var sc script
+				if err := json.Unmarshal(payload, &sc); err != nil {
+					core.Infra("bad TRACE line: %v: %.300s", err, payload)
+				}
+				sc.Src = cfg
+				mu.Lock()
+				all = append(all, sc)
+				mu.Unlock()
+			}})
+		done()
+		if err != nil {
+			core.Infra("tlc %s: %v", cfg, err)
+		}
+		if !res.OK() {
+			core.Infra("script generation %s failed: %s\n%s\n%s", cfg, res.Describe(), res.ErrorText, res.OutputTail)
+		}
+		rep.AddTLC(cfg, res)
+		rep.Note("%s: %d scripts emitted", cfg, len(all)-n0)
+	}
+	if len(all) < 100 {
+		core.Infra("expected >= 100 scripts from TLC, got %d", len(all))
+	}
+	sort.Slice(all, func(i, j int) bool { return all[i].key() < all[j].key() })
+	rep.Extra["scripts_emitted"] = len(all)
+	want := core.Pick(args, 84, 900)
+	picked := pick(all, want, args.Seed)
+	rep.Extra["scripts_replayed"] = len(picked)
+	rep.Extra["distinct_outcome_sets_emitted"] = countSigs(all)
+	rep.Extra["distinct_outcome_sets_replayed"] = countSigs(picked)
+
+	// ---- 3. replay on real clusters ----
+	cfgs := runCfgs(!args.Quick())
+	type job struct {
+		i  int
+		sc script
+	}
+	jobs := make(chan job)
+	var wg sync.WaitGroup
+	var mu sync.Mutex
+	stepsTotal, fwdTotal := 0, 0
+	leads := map[string]int{}
+	classes := map[string]int{}
+	workers := 4
+	for k := 0; k < workers; k++ {
+		wg.Add(1)
+		go func() {
+			defer wg.Done()
+			for j := range jobs {
+				cfg := cfgs[(j.i+int(args.Seed))%len(cfgs)]
+				r := runScript(j.sc, cfg)
+				if r.timing() {
+					// R5: a timing-dependent monitor failed; only a repeated failure counts
+					r2 := runScript(j.sc, cfg)
+					r2.Retried = true
+					if r2.sameFailure(r) {
+						r = r2
+					} else {
+						r2.dropTiming()
+						r = r2
+					}
+				}
+				mu.Lock()
+				record(rep, j.sc, cfg, r)
+				stepsTotal += r.Steps
+				fwdTotal += r.Forwards
+				for k, v := range r.Leads {
+					leads[k] += v
+				}
+				for k, v := range r.Classes {
+					classes[k] += v
+				}
+				mu.Unlock()
+			}
+		}()
+	}
+	for i, sc := range picked {
+		jobs <- job{i, sc}
+	}
+	close(jobs)
+	wg.Wait()
+
+	// ---- 4. directed scenarios (not TLC behaviours of the eager configuration) ----
+	for i, sc := range directed() {
+		for _, wal := range []bool{false, true} {
+			cfg := cfgs[i%len(cfgs)]
+			cfg.WAL = wal
+			r := runScript(sc, cfg)
+			record(rep, sc, cfg, r)
+			stepsTotal += r.Steps
+			fwdTotal += r.Forwards
+			for k, v := range r.Leads {
+				leads[k] += v
+			}
+			for k, v := range r.Classes {
+				classes[k] += v
+			}
+		}
+	}
+	rep.Extra["script_steps_executed"] = stepsTotal
+	rep.Extra["forwarded_commits_observed"] = fwdTotal
+	rep.Extra["leads_outside_c13_observed_on_real_code"] = leads
+	rep.Extra["outcome_classes_observed"] = classes
+	if len(picked) > 0 {
+		rep.Sample(map[string]any{"script": picked[len(picked)/2].compact(), "source": picked[len(picked)/2].Src})
+		rep.Sample(map[string]any{"script": picked[0].compact(), "source": picked[0].Src})
+	}
+	rep.Finish()
+}
+
+func record(rep *core.Report, sc script, cfg runCfg, r *runResult) {
+	rep.Eval(r.Evals)
+	rep.TracesValidated++
+	rep.Case(sc.key()+"|"+cfg.String(), r.Nontrivial)
+	for _, nc := range r.Nonconf {
+		rep.Nonconf("%s [%s] %s", sc.short(), cfg, nc)
+	}
+	if r.Infra != "" {
+		core.Infra("script %s [%s]: %s", sc.short(), cfg, r.Infra)
+	}
+	for _, f := range r.Fails {
+		rep.Violate(f.Monitor, f.Sig, map[string]any{"step": f.Step, "detail": f.Detail, "config": cfg.String(), "retried": r.Retried},
+			map[string]any{"script": sc, "config": cfg})
+	}
+}
+
+// pick selects n scripts: first one per distinct set of (action, outcome) pairs (round-robin over the
+// sets in seed order), then uniformly.
+func pick(all []script, n int, seed int64) []script {
+	if n >= len(all) {
+		return all
+	}
+	rnd := rand.New(rand.NewSource(seed*7919 + 13))
+	groups := map[string][]int{}
+	var keys []string
+	for i, sc := range all {
+		s := sc.sig()
+		if _, ok := groups[s]; !ok {
+			keys = append(keys, s)
+		}
+		groups[s] = append(groups[s], i)
+	}
+	sort.Strings(keys)
+	rnd.Shuffle(len(keys), func(i, j int) { keys[i], keys[j] = keys[j], keys[i] })
+	var out []script
+	used := map[int]bool{}
+	for round := 0; len(out) < n && round < 4; round++ {
+		for _, k := range keys {
+			if len(out) >= n {
 				break
 			}
-			time.Sleep(time.Millisecond)
-		}
-		_, info := w.n["R"].Store.PrimaryInfo()
-		fmt.Println("R sees primary", info, time.Since(t0), "R lock", w.n["R"].Store.DB("db").RemoteHaltLock())
-		r = w.localTx("R", false)
-		fmt.Println("R tx after change:", r.Err, r.Stage, r.Before, r.After, "T:", w.pos("T"), "P:", w.pos("P"))
-		r = w.localTx("T", false)
-		fmt.Println("T local tx:", r.Err, r.Stage, r.After)
-		time.Sleep(300 * time.Millisecond)
-		fmt.Println("pos", w.pos("P"), w.pos("R"), w.pos("T"), "P primary?", w.n["P"].Store.IsPrimary(), w.lockTable("P")["pending"])
-		ctx, c := context.WithTimeout(context.Background(), 3*time.Second)
-		fmt.Println("unlock", hh.unlock(ctx))
-		c()
-	case "rogue":
-		b, pos, err := w.craftLTX("P", 0xdead)
-		fmt.Println("craft", len(b), pos, err)
-		st, err := w.postTx("P", w.ids["T"], 999, b)
-		fmt.Println("post", st, err, "P:", w.pos("P"), w.n["P"].Exits())
-		fmt.Println("settle", w.settle([]string{"R", "T"}, 3*time.Second))
-		r := w.localTx("P", false)
-		fmt.Println("P tx:", r.Err, r.After)
-	}
-	for _, e := range w.rec.snapshot() {
-		if e.Seq > 14 {
-			fmt.Printf("%+v\n", e)
+			g := groups[k]
+			i := g[rnd.Intn(len(g))]
+			if !used[i] {
+				used[i] = true
+				out = append(out, all[i])
+			}
 		}
 	}
+	for len(out) < n {
+		i := rnd.Intn(len(all))
+		if !used[i] {
+			used[i] = true
+			out = append(out, all[i])
+		}
+	}
+	return out
+}
+
+func countSigs(l []script) int {
+	m := map[string]bool{}
+	for _, s := range l {
+		m[s.sig()] = true
+	}
+	return len(m)
+}
+
+func runCfgs(thorough bool) []runCfg {
+	c := []runCfg{
+		{WAL: false, Layout: "L0", PageSize: 512, Sector: 512},
+		{WAL: true, Layout: "L1", PageSize: 512, Sector: 512, BigEndian: true},
+		{WAL: false, Layout: "L1", PageSize: 1024, Sector: 512, Compress: true},
+		{WAL: true, Layout: "L0", PageSize: 4096, Sector: 4096, SplitHdr: true, Compress: true},
+	}
+	if thorough {
+		c = append(c,
+			runCfg{WAL: false, Layout: "L0", PageSize: 4096, Sector: 4096, Flush: true},
+			runCfg{WAL: true, Layout: "L0", PageSize: 1024, Sector: 512, Flush: true},
+		)
+	}
+	return c
+}
+
+func (c runCfg) layout() sim.Layout {
+	if c.Layout == "L1" {
+		return sim.L1(c.PageSize)
+	}
+	return sim.L0(c.PageSize)
+}
+
+func replayFile(rep *core.Report, args *core.Args) {
+	b, err := os.ReadFile(args.Replay)
+	if err != nil {
+		core.Infra("read replay: %v", err)
+	}
+	var f struct {
+		Replay struct {
+			Script script `json:"script"`
+			Config runCfg `json:"config"`
+		} `json:"replay"`
+	}
+	if err := json.Unmarshal(b, &f); err != nil {
+		core.Infra("parse replay: %v", err)
+	}
+	if len(f.Replay.Script.H) == 0 {
+		core.Infra("replay file holds no script")
+	}
+	r := runScript(f.Replay.Script, f.Replay.Config)
+	record(rep, f.Replay.Script, f.Replay.Config, r)
+	rep.States, rep.Transitions = 1, 1
+	rep.Sample(map[string]any{"script": f.Replay.Script.compact()})
+	fmt.Fprintf(os.Stderr, "replayed %s: fails=%d nonconf=%v\n", f.Replay.Script.short(), len(r.Fails), r.Nonconf)
 }
